@@ -263,8 +263,52 @@ theorem firstFail_none {l : List (Bool × String)} : firstFail l = none ↔ ∀ 
     obtain ⟨ok, name⟩ := x
     cases ok <;> simp [firstFail, ih]
 
+/-- the frame clause of an operation that finishes batch `b` -/
+theorem frameClause_of {pre : St} {ob : Obs} {b : Nat} (hf : (fate pre ob.op).batch? = some b)
+    (hit : ∀ i o bb, Ev.item i o bb ∈ ob.evs → ob.post.ibatch i = b)
+    (hbl : ∀ c, c ≠ b → ob.post.bitems c = pre.bitems c ++ createdOn ob.evs c) : frameClause pre ob = none := by
+  unfold frameClause
+  rw [firstFail_none]
+  unfold frameChecks
+  simp only [hf, List.mem_cons, List.not_mem_nil, or_false]
+  intro x hx
+  rcases hx with hx | hx
+  · subst hx
+    simp only [List.all_eq_true]
+    intro ev hev
+    cases ev with
+    | item i o bb => simp [hit i o bb hev]
+    | _ => rfl
+  · subst hx
+    simp only [List.all_eq_true]
+    intro c _
+    by_cases hc : c = b
+    · subst hc; simp
+    · simp [hbl c hc]
+
+/-- the frame clause of an operation that finishes nothing -/
+theorem frameClause_quiet {pre : St} {ob : Obs} (hf : fate pre ob.op = .quiet)
+    (hno : ∀ i o bb, Ev.item i o bb ∉ ob.evs)
+    (hbl : ∀ c, ob.post.bitems c = pre.bitems c ++ createdOn ob.evs c) : frameClause pre ob = none := by
+  unfold frameClause
+  rw [firstFail_none]
+  unfold frameChecks
+  simp only [hf, Fate.batch?, List.mem_cons, List.not_mem_nil, or_false]
+  intro x hx
+  rcases hx with hx | hx
+  · subst hx
+    simp only [List.all_eq_true]
+    intro ev hev
+    cases ev with
+    | item i o bb => exact absurd hev (hno i o bb)
+    | _ => rfl
+  · subst hx
+    simp only [List.all_eq_true]
+    intro c _
+    simp [hbl c]
+
 theorem specStep_none {rx : Bool} {pre : St} {ob : Obs} (h1 : opClause pre ob = none)
-    (hf : fateClause rx pre ob = none)
+    (hf : fateClause rx pre ob = none) (hfr : frameClause pre ob = none)
     (h2 : ∀ ev ∈ ob.evs, evClause (fate pre ob.op).bodyRuns pre ob.post ev = none)
     (h3 : (ob.evs.filter Ev.isAnnounce).length ≤ 1) (ha : afterAnnounceOk ob.post ob.evs = true)
     (hc : CountsOk pre ob.post ob.evs)
@@ -272,7 +316,7 @@ theorem specStep_none {rx : Bool} {pre : St} {ob : Obs} (h1 : opClause pre ob = 
   unfold specStep
   have : ob.evs.findSome? (evClause (fate pre ob.op).bodyRuns pre ob.post) = none := by
     rw [List.findSome?_eq_none_iff]; exact h2
-  simp only [h1, hf, this]
+  simp only [h1, hf, hfr, this]
   have : ¬ (List.filter Ev.isAnnounce ob.evs).length > 1 := by omega
   simp [this, ha, hc, h4, h5]
 
@@ -289,7 +333,8 @@ theorem slot_noop (pre : St) : slotOk pre pre none = true := by simp [slotOk]
 theorem specStep_noop {rx : Bool} {pre : St} {op : Op} {r : Res} (hg : Good pre) (hq : fate pre op = .quiet)
     (h1 : opClause pre { op := op, res := r, evs := [], post := pre } = none) :
     specStep rx pre { op := op, res := r, evs := [], post := pre } = none :=
-  specStep_none h1 (by simp [fateClause, fateChecks, firstFail, hq, slot_noop]) (by simp) (by simp) (by simp [afterAnnounceOk])
+  specStep_none h1 (by simp [fateClause, fateChecks, firstFail, hq, slot_noop])
+    (frameClause_quiet hq (by simp) (by simp [createdOn])) (by simp) (by simp) (by simp [afterAnnounceOk])
     (counts_noop pre) (Ext.refl pre) hg
 
 end AsynqModel.Batching
